@@ -155,6 +155,9 @@ fn do_validate<'a>(
     env: &'a RefCell<Environment<StdoutWrapper, StderrWrapper>>,
 ) -> bool {
     println!("Validating {}", file);
+    // Every file gets its own assertion log and verdict. The collector lives
+    // in the environment that all the files of a run share.
+    env.borrow_mut().assert_results = build::AssertCollector::new();
     match build_file(file, true, strict, import_paths, env) {
         Ok(b) => {
             if b.assert_results() {
